@@ -199,7 +199,10 @@ def compare_net(a, b, f, tag):
 
 def evaluate(case):
     import pandapipes as pp
-    rec, opts, deco = case["recipe"], case["options"], case["deco"]
+    rec, opts, deco = copy.deepcopy(case["recipe"]), case["options"], case["deco"]
+    for e in rec["elements"]:
+        if e["table"] == "mass_storage":
+            e.setdefault("max_m_stored_kg", 1.0e6)      # the default (inf) is the subject of a known finding; see deco
     net = build(rec)
     decorate(net, rec, deco)
     labels = {"path:" + case["path"], "multinet" if case["multinet"] else "single"}
